@@ -26,11 +26,12 @@ import NemoVerif.Lemmas.V1Follow
 import NemoVerif.Lemmas.V1Sub
 import NemoVerif.Lemmas.V1Multi
 import NemoVerif.Lemmas.V1FollowDo
+import NemoVerif.Lemmas.V1Stack
 import NemoVerif.Lemmas.V1Run
 import NemoVerif.Lemmas.V1Mut
 import NemoVerif.Generated.LlmFlowsV1
 namespace NemoVerif.C14
-open NemoVerif.V1Interp NemoVerif.V1Struct NemoVerif.V1Follow NemoVerif.V1Sub NemoVerif.V1Multi NemoVerif.V1Run NemoVerif.V1RunL NemoVerif.V1Mut NemoVerif.V1FollowDo
+open NemoVerif.V1Interp NemoVerif.V1Struct NemoVerif.V1Follow NemoVerif.V1Sub NemoVerif.V1Multi NemoVerif.V1Run NemoVerif.V1RunL NemoVerif.V1Mut NemoVerif.V1FollowDo NemoVerif.V1Stack
 
 /-- The compiler as the code has it (compile sub-blocks, then annotate every element of a loop body
     with `_next_on_break`/`_next_on_continue` unless an inner loop already did) computes the same
@@ -760,5 +761,33 @@ example : (followAllD exDoLib exDoMain "hi" 50 { ctx := [], pos := .idle, dec :=
       [.other "UtteranceUserActionFinished" [], .userIntent "hi"]).map (·.dec)
     = some [.ctx [("n", .int 1)], .bot "one"] := by
   decide
+
+
+/-! ## Phase 4 (1c): the resume fix-point unwinds the call stack -/
+
+/-- **resume_unwinds_stack.**  The state of the interpreter along a stack of waiting callers (`Shape`): the flow states
+    are — in ANY order, among any COMPLETED left-overs — the images of the frames `stk` (innermost first; each frame
+    waits at a `do`, INTERRUPTED by the uid of the frame below it), with pairwise distinct uids below the counter.
+    Situation: the callee `X` the top frame waits for (`ChainFrom (some uX) stk`) is COMPLETED.  Then the resume
+    fix-point of `compute_next_state` (`resumePass` from any position `i` of the running pass, followed by the
+    `while changes` iterations; `resumeLoop true (K+1) … = resumeFrom … K 1000 ns 0 false`) does exactly what the
+    structured unwinding `unwindS` says, whatever the depth of the stack and the order of the list: the top caller
+    continues AFTER its `do`; if it runs to its end, ITS caller continues after its own `do`, and so on; the first frame
+    that reaches a step statement (possibly after calling further subflows, whose frames are pushed) stops the
+    unwinding.  The result again has the shape of a stack (`Shape … stk'`, `ChainFrom none stk'`), the context, the
+    context updates and the uid counter are the structured run's, and the recorded next step is the one of the
+    innermost waiting flow (`InnerOK`) — or the model's fixed pass / loop / slide fuel ran out. -/
+theorem resume_unwinds_stack (cfgs : Cfgs) (lib : Lib) (hlib : LibOK cfgs lib) (f : Nat)
+    (stk : List SFrame) (K F : Nat) (ns : State) (i : Nat) (ch : Bool) (uX jx : Nat) (X : FS)
+    (hS : Shape cfgs ns stk) (hc : ChainFrom (some uX) stk)
+    (hX : ns.flows[jx]? = some X) (hXu : X.uid = uX) (hXc : X.status = .completed)
+    (hpos : ch = true ∨ ∀ top, stk.head? = some top → ∀ idx : Nat, ns.flows[idx]? = some top.toFS → i ≤ idx) :
+    resumeFrom cfgs K F ns i ch = .error .oof ∨
+    Unwound cfgs ns.next (resumeFrom cfgs K F ns i ch) (unwindS lib f ⟨ns.ctx, ns.upd⟩ ns.ctr stk) :=
+  resume_chain cfgs lib hlib f stk K F ns i ch uX jx X hS hc hX hXu hXc hpos
+
+/-- the fix-point as the code has it is `resumeFrom` from the start of a fresh pass -/
+theorem resume_loop_is_resumeFrom (cfgs : Cfgs) (K : Nat) (ns : State) :
+    resumeLoop true (K + 1) cfgs ns = resumeFrom cfgs K 1000 ns 0 false := resumeLoop_eq cfgs K ns
 
 end NemoVerif.C14
